@@ -266,6 +266,15 @@ class Program:
                 self.statics[s["path"]] = s
             for f in data["fns"]:
                 self.fns[strip_generics(f["path"])] = f
+        self.finalize()
+
+    def finalize(self):
+        # closures inherit predicates (where-clauses) of their typeck root
+        for b in self.bodies:
+            if b.is_closure and not b.preds:
+                r = self.by_key.get(strip_generics(b.root))
+                if r:
+                    b.preds = r[0].preds
 
     def find(self, suffix, crate=None):
         """Bodies whose generic-free path ends with `suffix` (on a `::` boundary)."""
